@@ -575,3 +575,736 @@ Qed.
 
 Lemma leq_refl cur l : leq cur l l.
 Proof. repeat split; reflexivity. Qed.
+
+(* ---------------------------------------------------------------------------------------------- *)
+(* D. the filter *)
+
+(* D1. the ban / permit decision table *)
+
+Lemma initial_permit f p ip now :
+  mem ip (permit_ips p) = true -> initial_pass f p ip now = (f, p, true).
+Proof. intro H. unfold initial_pass. rewrite H. reflexivity. Qed.
+
+Lemma initial_banned f p ip now :
+  mem ip (permit_ips p) = false -> has_key ip (ban_ips p) = true ->
+  initial_pass f p ip now = (f, p, false).
+Proof. intros H1 H2. unfold initial_pass. rewrite H1, H2. reflexivity. Qed.
+
+Lemma final_permit f p ip id now :
+  mem id (permit_nodes p) = true -> final_pass f p ip id now = (f, p, true).
+Proof. intro H. unfold final_pass. rewrite H. reflexivity. Qed.
+
+Lemma final_banned f p ip id now :
+  mem id (permit_nodes p) = false -> has_key id (ban_nodes p) = true ->
+  final_pass f p ip id now = (f, p, false).
+Proof. intros H1 H2. unfold final_pass. rewrite H1, H2. reflexivity. Qed.
+
+Lemma initial_disabled f p ip now :
+  mem ip (permit_ips p) = false -> has_key ip (ban_ips p) = false -> enabled f = false ->
+  initial_pass f p ip now = (f, p, true).
+Proof. intros H1 H2 H3. unfold initial_pass. rewrite H1, H2, H3. reflexivity. Qed.
+
+(* the IP limiter refuses: the datagram is dropped and the IP is banned until now + ban_duration *)
+Lemma initial_ip_limit_bans f p ip now r :
+  mem ip (permit_ips p) = false -> has_key ip (ban_ips p) = false -> enabled f = true ->
+  rate f = Some r -> verdict_ok (snd (rl_allows r now (KIp ip))) = false ->
+  let '(f', p', ok) := initial_pass f p ip now in
+  ok = false /\ lookup ip (ban_ips p') = Some (option_map (fun d => now + d) (ban_duration f)) /\
+  ban_nodes p' = ban_nodes p /\ permit_ips p' = permit_ips p /\ permit_nodes p' = permit_nodes p.
+Proof.
+  intros H1 H2 H3 H4 H5. unfold initial_pass. rewrite H1, H2, H3, H4. cbn [negb].
+  destruct (rl_allows r now (KIp ip)) as [r1 v1]. cbn [snd] in H5. rewrite H5. cbn [negb].
+  repeat split. cbn [with_ban_ip ban_ips]. apply lookup_set_same.
+Qed.
+
+(* only the total quota is exceeded: dropped, nobody is banned *)
+Lemma initial_total_limit_no_ban f p ip now r :
+  mem ip (permit_ips p) = false -> has_key ip (ban_ips p) = false -> enabled f = true ->
+  rate f = Some r -> verdict_ok (snd (rl_allows r now (KIp ip))) = true ->
+  verdict_ok (snd (rl_allows (fst (rl_allows r now (KIp ip))) now KTotal)) = false ->
+  let '(f', p', ok) := initial_pass f p ip now in ok = false /\ p' = p.
+Proof.
+  intros H1 H2 H3 H4 H5 H6. unfold initial_pass. rewrite H1, H2, H3, H4. cbn [negb].
+  destruct (rl_allows r now (KIp ip)) as [r1 v1]. cbn [fst snd] in *. rewrite H5. cbn [negb].
+  destruct (rl_allows r1 now KTotal) as [r2 v2]. cbn [snd] in H6. rewrite H6. split; reflexivity.
+Qed.
+
+(* within the IP and the total quota: passed, the lists are untouched *)
+Lemma initial_within_quota f p ip now r :
+  mem ip (permit_ips p) = false -> has_key ip (ban_ips p) = false -> enabled f = true ->
+  rate f = Some r -> verdict_ok (snd (rl_allows r now (KIp ip))) = true ->
+  verdict_ok (snd (rl_allows (fst (rl_allows r now (KIp ip))) now KTotal)) = true ->
+  initial_pass f p ip now =
+  (with_rate f (Some (fst (rl_allows (fst (rl_allows r now (KIp ip))) now KTotal))), p, true).
+Proof.
+  intros H1 H2 H3 H4 H5 H6. unfold initial_pass. rewrite H1, H2, H3, H4. cbn [negb].
+  destruct (rl_allows r now (KIp ip)) as [r1 v1]. cbn [fst snd] in *. rewrite H5. cbn [negb].
+  destruct (rl_allows r1 now KTotal) as [r2 v2]. cbn [fst snd] in *. rewrite H6. reflexivity.
+Qed.
+
+(* the node limiter refuses: dropped, the node id is banned until now + ban_duration *)
+Lemma final_node_limit_bans f p ip id now r :
+  mem id (permit_nodes p) = false -> has_key id (ban_nodes p) = false -> enabled f = true ->
+  rate f = Some r -> verdict_ok (snd (rl_allows r now (KNode id))) = false ->
+  let '(f', p', ok) := final_pass f p ip id now in
+  ok = false /\ lookup id (ban_nodes p') = Some (option_map (fun d => now + d) (ban_duration f)).
+Proof.
+  intros H1 H2 H3 H4 H5. unfold final_pass. rewrite H1, H2, H3, H4. cbn [negb].
+  destruct (rl_allows r now (KNode id)) as [r1 v1]. cbn [snd] in H5. rewrite H5.
+  destruct (max_bans_per_ip f) as [m|].
+  - destruct (lru_get ip (banned_nodes f)) as [cnt|].
+    + destruct (m <=? cnt + 1); (split; [reflexivity|]); cbn; apply lookup_set_same.
+    + split; [reflexivity|]. cbn. apply lookup_set_same.
+  - split; [reflexivity|]. cbn. apply lookup_set_same.
+Qed.
+
+(* solicited traffic (an expected response) bypasses both passes *)
+Lemma handle_inbound_exempt f p ip d now :
+  handle_inbound f p true ip d now =
+  (f, p, match d with None => Unrecognized | Some _ => Deliver end).
+Proof. unfold handle_inbound. cbn. destruct d as [[id|]|]; reflexivity. Qed.
+
+(* unban_nodes_check keeps an entry while now < expiry (and permanent entries), drops it after *)
+Definition wfp (p : pbl) : Prop := NoDup (map fst (ban_ips p)) /\ NoDup (map fst (ban_nodes p)).
+
+Lemma unban_keeps_ip p now ip u :
+  wfp p -> lookup ip (ban_ips p) = Some u ->
+  lookup ip (ban_ips (unban_check p now)) =
+  match u with None => Some None | Some x => if now <? x then Some (Some x) else None end.
+Proof.
+  intros [W _] H. unfold unban_check. cbn [ban_ips].
+  rewrite (lookup_filter (still_banned now) ip (ban_ips p) W), H. unfold still_banned. cbn [snd].
+  destruct u as [x|]; [destruct (now <? x)|]; reflexivity.
+Qed.
+
+Lemma unban_keeps_node p now id u :
+  wfp p -> lookup id (ban_nodes p) = Some u ->
+  lookup id (ban_nodes (unban_check p now)) =
+  match u with None => Some None | Some x => if now <? x then Some (Some x) else None end.
+Proof.
+  intros [_ W] H. unfold unban_check. cbn [ban_nodes].
+  rewrite (lookup_filter (still_banned now) id (ban_nodes p) W), H. unfold still_banned. cbn [snd].
+  destruct u as [x|]; [destruct (now <? x)|]; reflexivity.
+Qed.
+
+(* D2. what the two passes can do to the lists, and: bans last *)
+
+Ltac fin := cbn; repeat split; auto.
+
+Lemma initial_pass_shape f p ip now :
+  let '(f', p', ok) := initial_pass f p ip now in
+  ban_duration f' = ban_duration f /\ enabled f' = enabled f /\
+  permit_ips p' = permit_ips p /\ permit_nodes p' = permit_nodes p /\ ban_nodes p' = ban_nodes p /\
+  (ban_ips p' = ban_ips p \/
+   (ban_ips p' = set ip (ban_timeout f now) (ban_ips p) /\ ok = false)).
+Proof.
+  unfold initial_pass.
+  destruct (mem ip (permit_ips p)); [fin|].
+  destruct (has_key ip (ban_ips p)); [fin|].
+  destruct (negb (enabled f)); [fin|].
+  destruct (rate f) as [r|]; [|fin].
+  destruct (rl_allows r now (KIp ip)) as [r1 v1].
+  destruct (negb (verdict_ok v1)); [fin|].
+  destruct (rl_allows r1 now KTotal) as [r2 v2]. fin.
+Qed.
+
+Lemma final_pass_shape f p ip id now :
+  let '(f', p', ok) := final_pass f p ip id now in
+  ban_duration f' = ban_duration f /\ enabled f' = enabled f /\
+  permit_ips p' = permit_ips p /\ permit_nodes p' = permit_nodes p /\
+  (ban_nodes p' = ban_nodes p \/ ban_nodes p' = set id (ban_timeout f now) (ban_nodes p)) /\
+  (ban_ips p' = ban_ips p \/ ban_ips p' = set ip (ban_timeout f now) (ban_ips p)).
+Proof.
+  unfold final_pass.
+  destruct (mem id (permit_nodes p)); [fin|].
+  destruct (has_key id (ban_nodes p)); [fin|].
+  destruct (negb (enabled f)); [fin|].
+  destruct (rate f) as [r|].
+  - destruct (rl_allows r now (KNode id)) as [r1 v1].
+    destruct (verdict_ok v1).
+    + cbn [max_nodes_per_ip with_rate]. destruct (max_nodes_per_ip f) as [m|]; [|fin].
+      destruct (note_known _ ip id) as [k' n]. destruct (m <=? n); fin.
+    + destruct (max_bans_per_ip f) as [m|]; [|fin].
+      destruct (lru_get ip (banned_nodes f)) as [cnt|]; [|fin].
+      destruct (m <=? cnt + 1); fin.
+  - destruct (max_nodes_per_ip f) as [m|]; [|fin].
+    destruct (note_known _ ip id) as [k' n]. destruct (m <=? n); fin.
+Qed.
+
+Lemma handle_inbound_shape f p ex ip d now :
+  let '(f', p', x) := handle_inbound f p ex ip d now in
+  ban_duration f' = ban_duration f /\ enabled f' = enabled f /\
+  permit_ips p' = permit_ips p /\ permit_nodes p' = permit_nodes p /\
+  (ban_nodes p' = ban_nodes p \/
+   exists id, d = Some (Some id) /\ ban_nodes p' = set id (ban_timeout f now) (ban_nodes p)) /\
+  (ban_ips p' = ban_ips p \/ ban_ips p' = set ip (ban_timeout f now) (ban_ips p)).
+Proof.
+  unfold handle_inbound. destruct ex.
+  - cbn. destruct d as [[id|]|]; fin.
+  - pose proof (initial_pass_shape f p ip now) as S1.
+    destruct (initial_pass f p ip now) as [[f1 p1] ok1].
+    destruct S1 as (A1 & A2 & A3 & A4 & A5 & A6).
+    destruct ok1; cbn [negb].
+    + destruct A6 as [A6|[_ A6]]; [|discriminate].
+      destruct d as [[id|]|]; [|fin; rewrite A6; auto|fin; rewrite A6; auto].
+      pose proof (final_pass_shape f1 p1 ip id now) as S2.
+      destruct (final_pass f1 p1 ip id now) as [[f2 p2] ok2].
+      destruct S2 as (B1 & B2 & B3 & B4 & B5 & B6).
+      assert (T : ban_timeout f1 now = ban_timeout f now) by (unfold ban_timeout; rewrite A1; reflexivity).
+      rewrite T in *.
+      split; [congruence|]. split; [congruence|]. split; [congruence|]. split; [congruence|]. split.
+      * destruct B5 as [B5|B5]; [left; congruence|right; exists id; split; [reflexivity|congruence]].
+      * destruct B6 as [B6|B6]; [left; congruence|right; congruence].
+    + repeat split; auto. destruct A6 as [A6|[A6 _]]; [left|right]; assumption.
+Qed.
+
+Definition banned_until (l : list (N * option N)) (k e : N) : Prop :=
+  exists u, lookup k l = Some u /\ match u with None => True | Some x => e <= x end.
+
+Lemma banned_until_has_key l k e : banned_until l k e -> has_key k l = true.
+Proof. intros (u & H & _). unfold has_key. rewrite H. reflexivity. Qed.
+
+Lemma banned_until_set l k e k' u :
+  banned_until l k e -> (k' = k -> match u with None => True | Some x => e <= x end) ->
+  banned_until (set k' u l) k e.
+Proof.
+  intros (u0 & H & Hu) Hn. destruct (N.eq_dec k' k) as [->|NE].
+  - exists u. rewrite lookup_set_same. split; [reflexivity|exact (Hn eq_refl)].
+  - exists u0. rewrite lookup_set_other by congruence. split; assumption.
+Qed.
+
+Lemma timeout_ok f now e :
+  match ban_duration f with Some d => e <= now + d | None => True end ->
+  match ban_timeout f now with None => True | Some x => e <= x end.
+Proof. unfold ban_timeout. destruct (ban_duration f); cbn; auto. Qed.
+
+Lemma mem_false_iff x l : mem x l = false <-> ~ In x l.
+Proof.
+  unfold mem. split.
+  - intros H Hi. assert (existsb (N.eqb x) l = true); [|congruence].
+    apply existsb_exists. exists x. split; [exact Hi|apply N.eqb_refl].
+  - intro H. destruct (existsb (N.eqb x) l) eqn:E; [|reflexivity].
+    apply existsb_exists in E. destruct E as (y & Hy & Ey). apply N.eqb_eq in Ey. subst. tauto.
+Qed.
+
+Lemma mem_add_or_remove add x y l :
+  mem y l = false -> (add = true -> x <> y) -> mem y (add_or_remove add x l) = false.
+Proof.
+  rewrite !mem_false_iff. intros H Hx. unfold add_or_remove. destruct add.
+  - destruct (mem x l); [exact H|]. rewrite in_app_iff. cbn. intros [Hi|[->|[]]]; [tauto|]. apply Hx; reflexivity.
+  - rewrite filter_In. tauto.
+Qed.
+
+Lemma lookup_unset_other {A} k k' (l : list (N * A)) : k' <> k -> lookup k' (unset k l) = lookup k' l.
+Proof.
+  intro H. unfold unset. induction l as [|[k0 y] r IH]; cbn [List.filter lookup fst]; [reflexivity|].
+  destruct (N.eqb_spec k0 k) as [->|E]; cbn [negb lookup].
+  - destruct (N.eqb_spec k k'); [congruence|exact IH].
+  - destruct (k0 =? k'); [reflexivity|exact IH].
+Qed.
+
+Lemma nodup_unset {A} k (l : list (N * A)) : NoDup (map fst l) -> NoDup (map fst (unset k l)).
+Proof. apply nodup_filter_keys. Qed.
+
+Lemma wfp_shape p p' ip id u u' :
+  wfp p ->
+  (ban_nodes p' = ban_nodes p \/ ban_nodes p' = set id u (ban_nodes p)) ->
+  (ban_ips p' = ban_ips p \/ ban_ips p' = set ip u' (ban_ips p)) -> wfp p'.
+Proof.
+  intros [W1 W2] H1 H2. unfold wfp. destruct H1 as [-> | ->], H2 as [-> | ->]; split; auto using nodup_set.
+Qed.
+
+(* the events a ban of [ip] must survive: everything except the application's own calls on that
+   address (Discv5::ban_ip / ban_ip_remove / permit_ip) *)
+Definition keeps_ip_ban (ip : N) (ev : fevent) : Prop :=
+  match ev with
+  | FPermitIp ip' true => ip' <> ip
+  | FBanIp ip' _ _ => ip' <> ip
+  | _ => True
+  end.
+Definition denied_ip (ip : N) (ev : fevent) (o : fobs) : Prop :=
+  match ev with
+  | FInitial ip' => ip' = ip -> o = OBool false
+  | FInbound false ip' _ => ip' = ip -> o = OFate DropIpStage
+  | _ => True
+  end.
+Definition ip_banned (ip e : N) (p : pbl) : Prop :=
+  wfp p /\ mem ip (permit_ips p) = false /\ banned_until (ban_ips p) ip e.
+
+Lemma fstep_keeps_ip_ban f p ip e ev now :
+  ip_banned ip e p -> now < e ->
+  match ban_duration f with Some d => e <= now + d | None => True end ->
+  keeps_ip_ban ip ev ->
+  let '(f1, p1, o) := fstep f p ev now in
+  ip_banned ip e p1 /\ ban_duration f1 = ban_duration f /\ denied_ip ip ev o.
+Proof.
+  intros (W & NP & BU) Hn Hd K. pose proof (timeout_ok f now e Hd) as HT. pose proof W as [W1 W2].
+  unfold ip_banned.
+  destruct ev as [ip'|ip' id|ex ip' d| | |ip' add|id add|ip' add dur|id add dur]; cbn [fstep].
+  - (* initial_pass *)
+    pose proof (initial_pass_shape f p ip' now) as S.
+    destruct (N.eq_dec ip' ip) as [->|NE].
+    + rewrite (initial_banned f p ip now NP (banned_until_has_key _ _ _ BU)).
+      refine (conj (conj W (conj NP BU)) (conj eq_refl _)). cbn. reflexivity.
+    + destruct (initial_pass f p ip' now) as [[f1 p1] ok]. destruct S as (A1 & A2 & A3 & A4 & A5 & A6).
+      refine (conj (conj _ (conj _ _)) (conj A1 _)).
+      * apply (wfp_shape p p1 ip' 0 None (ban_timeout f now) W); [left; exact A5|].
+        destruct A6 as [A6|[A6 _]]; [left|right]; exact A6.
+      * rewrite A3. exact NP.
+      * destruct A6 as [A6|[A6 _]]; rewrite A6; [exact BU|].
+        apply banned_until_set; [exact BU|congruence].
+      * cbn. congruence.
+  - (* final_pass *)
+    pose proof (final_pass_shape f p ip' id now) as S.
+    destruct (final_pass f p ip' id now) as [[f1 p1] ok]. destruct S as (A1 & A2 & A3 & A4 & A5 & A6).
+    refine (conj (conj _ (conj _ _)) (conj A1 _)).
+    + apply (wfp_shape p p1 ip' id (ban_timeout f now) (ban_timeout f now) W A5 A6).
+    + rewrite A3. exact NP.
+    + destruct A6 as [A6|A6]; rewrite A6; [exact BU|].
+      apply banned_until_set; [exact BU|intros _; exact HT].
+    + exact Logic.I.
+  - (* handle_inbound *)
+    pose proof (handle_inbound_shape f p ex ip' d now) as S.
+    assert (D : ex = false -> ip' = ip -> handle_inbound f p ex ip' d now = (f, p, DropIpStage)).
+    { intros -> ->. unfold handle_inbound.
+      rewrite (initial_banned f p ip now NP (banned_until_has_key _ _ _ BU)). reflexivity. }
+    destruct (handle_inbound f p ex ip' d now) as [[f1 p1] x]. destruct S as (A1 & A2 & A3 & A4 & A5 & A6).
+    refine (conj (conj _ (conj _ _)) (conj A1 _)).
+    + destruct A5 as [A5|(id & _ & A5)].
+      * apply (wfp_shape p p1 ip' 0 None (ban_timeout f now) W); [left; exact A5|exact A6].
+      * apply (wfp_shape p p1 ip' id (ban_timeout f now) (ban_timeout f now) W); [right; exact A5|exact A6].
+    + rewrite A3. exact NP.
+    + destruct A6 as [A6|A6]; rewrite A6; [exact BU|].
+      apply banned_until_set; [exact BU|intros _; exact HT].
+    + cbn. destruct ex; [exact Logic.I|]. intro E. specialize (D eq_refl E). congruence.
+  - (* prune_limiter *)
+    refine (conj (conj W (conj NP BU)) (conj eq_refl _)). exact Logic.I.
+  - (* unban_nodes_check *)
+    destruct BU as (u & Hu & Hx).
+    refine (conj (conj (conj _ _) (conj NP _)) (conj eq_refl Logic.I)).
+    + cbn. apply nodup_filter_keys. exact W1.
+    + cbn. apply nodup_filter_keys. exact W2.
+    + exists u. rewrite (unban_keeps_ip p now ip u W Hu). destruct u as [x|]; [|split; auto].
+      assert (E : now <? x = true) by (apply N.ltb_lt; lia). rewrite E. split; auto.
+  - (* permit_ip / permit_ip_remove *)
+    cbn in K. refine (conj (conj W (conj _ BU)) (conj eq_refl Logic.I)).
+    cbn [permit_ips]. apply mem_add_or_remove; [exact NP|]. intros ->. exact K.
+  - (* permit_node / permit_node_remove *)
+    refine (conj (conj W (conj NP BU)) (conj eq_refl Logic.I)).
+  - (* ban_ip / ban_ip_remove on another address *)
+    cbn in K. destruct BU as (u & Hu & Hx). destruct add; cbn.
+    + refine (conj (conj (conj _ W2) (conj NP _)) (conj eq_refl Logic.I)); [apply nodup_set; exact W1|].
+      exists u. rewrite lookup_set_other by congruence. auto.
+    + refine (conj (conj (conj _ W2) (conj NP _)) (conj eq_refl Logic.I)); [apply nodup_unset; exact W1|].
+      exists u. rewrite lookup_unset_other by congruence. auto.
+  - (* ban_node / ban_node_remove *)
+    destruct add; cbn.
+    + refine (conj (conj (conj W1 _) (conj NP BU)) (conj eq_refl Logic.I)). apply nodup_set. exact W2.
+    + refine (conj (conj (conj W1 _) (conj NP BU)) (conj eq_refl Logic.I)). apply nodup_unset. exact W2.
+Qed.
+
+Fixpoint all_obs (P : fevent -> fobs -> Prop) (evs : list (fevent * N)) (os : list fobs) : Prop :=
+  match evs, os with
+  | [], [] => True
+  | (ev, _) :: r, o :: os' => P ev o /\ all_obs P r os'
+  | _, _ => False
+  end.
+
+(* An IP that is banned until e (or for ever) and is not permit-listed is refused at the IP stage
+   by every call before e - whatever else the filter processes, whenever the limiter is pruned and
+   whenever the handler's unban check runs.  [e <= now + d]: a re-ban can only extend the ban. *)
+Theorem ban_lasts_ip ip e evs : forall f p,
+  ip_banned ip e p ->
+  Forall (fun x => snd x < e /\
+                   match ban_duration f with Some d => e <= snd x + d | None => True end /\
+                   keeps_ip_ban ip (fst x)) evs ->
+  all_obs (denied_ip ip) evs (snd (frun f p evs)).
+Proof.
+  induction evs as [|[ev now] r IH]; intros f p B H; cbn [frun]; [exact Logic.I|].
+  inversion H as [|x y (Hn & Hd & K) Hr]; subst. cbn [fst snd] in *.
+  pose proof (fstep_keeps_ip_ban f p ip e ev now B Hn Hd K) as S.
+  destruct (fstep f p ev now) as [[f1 p1] o]. destruct S as (B1 & D1 & Dn).
+  specialize (IH f1 p1 B1). rewrite D1 in IH. specialize (IH Hr).
+  destruct (frun f1 p1 r) as [[f2 p2] os]. cbn [snd all_obs] in *. split; assumption.
+Qed.
+
+(* the same for a banned node id, at the node stage *)
+Definition keeps_node_ban (id : N) (ev : fevent) : Prop :=
+  match ev with
+  | FPermitNode id' true => id' <> id
+  | FBanNode id' _ _ => id' <> id
+  | _ => True
+  end.
+Definition denied_node (id : N) (ev : fevent) (o : fobs) : Prop :=
+  match ev with
+  | FFinal _ id' => id' = id -> o = OBool false
+  | FInbound false _ (Some (Some id')) => id' = id -> o = OFate DropIpStage \/ o = OFate DropNodeStage
+  | _ => True
+  end.
+Definition node_banned (id e : N) (p : pbl) : Prop :=
+  wfp p /\ mem id (permit_nodes p) = false /\ banned_until (ban_nodes p) id e.
+
+Lemma fstep_keeps_node_ban f p id e ev now :
+  node_banned id e p -> now < e ->
+  match ban_duration f with Some d => e <= now + d | None => True end ->
+  keeps_node_ban id ev ->
+  let '(f1, p1, o) := fstep f p ev now in
+  node_banned id e p1 /\ ban_duration f1 = ban_duration f /\ denied_node id ev o.
+Proof.
+  intros (W & NP & BU) Hn Hd K. pose proof (timeout_ok f now e Hd) as HT. pose proof W as [W1 W2].
+  unfold node_banned.
+  destruct ev as [ip'|ip' id'|ex ip' d| | |ip' add|id' add|ip' add dur|id' add dur]; cbn [fstep].
+  - (* initial_pass *)
+    pose proof (initial_pass_shape f p ip' now) as S.
+    destruct (initial_pass f p ip' now) as [[f1 p1] ok]. destruct S as (A1 & A2 & A3 & A4 & A5 & A6).
+    refine (conj (conj _ (conj _ _)) (conj A1 Logic.I)).
+    + apply (wfp_shape p p1 ip' 0 None (ban_timeout f now) W); [left; exact A5|].
+      destruct A6 as [A6|[A6 _]]; [left|right]; exact A6.
+    + rewrite A4. exact NP.
+    + rewrite A5. exact BU.
+  - (* final_pass *)
+    pose proof (final_pass_shape f p ip' id' now) as S.
+    destruct (N.eq_dec id' id) as [->|NE].
+    + rewrite (final_banned f p ip' id now NP (banned_until_has_key _ _ _ BU)).
+      refine (conj (conj W (conj NP BU)) (conj eq_refl _)). cbn. reflexivity.
+    + destruct (final_pass f p ip' id' now) as [[f1 p1] ok]. destruct S as (A1 & A2 & A3 & A4 & A5 & A6).
+      refine (conj (conj _ (conj _ _)) (conj A1 _)).
+      * apply (wfp_shape p p1 ip' id' (ban_timeout f now) (ban_timeout f now) W A5 A6).
+      * rewrite A4. exact NP.
+      * destruct A5 as [A5|A5]; rewrite A5; [exact BU|]. apply banned_until_set; [exact BU|congruence].
+      * cbn. congruence.
+  - (* handle_inbound *)
+    pose proof (handle_inbound_shape f p ex ip' d now) as S.
+    assert (D : ex = false -> d = Some (Some id) ->
+                snd (handle_inbound f p ex ip' d now) = DropIpStage \/
+                snd (handle_inbound f p ex ip' d now) = DropNodeStage).
+    { intros -> ->. unfold handle_inbound.
+      pose proof (initial_pass_shape f p ip' now) as S1.
+      destruct (initial_pass f p ip' now) as [[f1 p1] ok1]. destruct S1 as (_ & _ & _ & B4 & B5 & _).
+      destruct ok1; cbn [negb snd]; [|left; reflexivity].
+      assert (NP1 : mem id (permit_nodes p1) = false) by (rewrite B4; exact NP).
+      assert (BU1 : has_key id (ban_nodes p1) = true) by (rewrite B5; exact (banned_until_has_key _ _ _ BU)).
+      rewrite (final_banned f1 p1 ip' id now NP1 BU1). right. reflexivity. }
+    destruct (handle_inbound f p ex ip' d now) as [[f1 p1] x]. destruct S as (A1 & A2 & A3 & A4 & A5 & A6).
+    refine (conj (conj _ (conj _ _)) (conj A1 _)).
+    + destruct A5 as [A5|(id0 & _ & A5)].
+      * apply (wfp_shape p p1 ip' 0 None (ban_timeout f now) W); [left; exact A5|exact A6].
+      * apply (wfp_shape p p1 ip' id0 (ban_timeout f now) (ban_timeout f now) W); [right; exact A5|exact A6].
+    + rewrite A4. exact NP.
+    + destruct A5 as [A5|(id0 & _ & A5)]; rewrite A5; [exact BU|].
+      apply banned_until_set; [exact BU|intros _; exact HT].
+    + cbn. destruct ex; [exact Logic.I|]. destruct d as [[id'|]|]; try exact Logic.I.
+      intros ->. cbn [snd] in D. destruct (D eq_refl eq_refl) as [-> | ->]; [left|right]; reflexivity.
+  - (* prune_limiter *)
+    refine (conj (conj W (conj NP BU)) (conj eq_refl Logic.I)).
+  - (* unban_nodes_check *)
+    destruct BU as (u & Hu & Hx).
+    refine (conj (conj (conj _ _) (conj NP _)) (conj eq_refl Logic.I)).
+    + cbn. apply nodup_filter_keys. exact W1.
+    + cbn. apply nodup_filter_keys. exact W2.
+    + exists u. rewrite (unban_keeps_node p now id u W Hu). destruct u as [x|]; [|split; auto].
+      assert (E : now <? x = true) by (apply N.ltb_lt; lia). rewrite E. split; auto.
+  - (* permit_ip / permit_ip_remove *)
+    refine (conj (conj W (conj NP BU)) (conj eq_refl Logic.I)).
+  - (* permit_node / permit_node_remove *)
+    cbn in K. refine (conj (conj W (conj _ BU)) (conj eq_refl Logic.I)).
+    cbn [permit_nodes]. apply mem_add_or_remove; [exact NP|]. intros ->. exact K.
+  - (* ban_ip / ban_ip_remove *)
+    destruct add; cbn.
+    + refine (conj (conj (conj _ W2) (conj NP BU)) (conj eq_refl Logic.I)). apply nodup_set. exact W1.
+    + refine (conj (conj (conj _ W2) (conj NP BU)) (conj eq_refl Logic.I)). apply nodup_unset. exact W1.
+  - (* ban_node / ban_node_remove on another id *)
+    cbn in K. destruct BU as (u & Hu & Hx). destruct add; cbn.
+    + refine (conj (conj (conj W1 _) (conj NP _)) (conj eq_refl Logic.I)); [apply nodup_set; exact W2|].
+      exists u. rewrite lookup_set_other by congruence. auto.
+    + refine (conj (conj (conj W1 _) (conj NP _)) (conj eq_refl Logic.I)); [apply nodup_unset; exact W2|].
+      exists u. rewrite lookup_unset_other by congruence. auto.
+Qed.
+
+Theorem ban_lasts_node id e evs : forall f p,
+  node_banned id e p ->
+  Forall (fun x => snd x < e /\
+                   match ban_duration f with Some d => e <= snd x + d | None => True end /\
+                   keeps_node_ban id (fst x)) evs ->
+  all_obs (denied_node id) evs (snd (frun f p evs)).
+Proof.
+  induction evs as [|[ev now] r IH]; intros f p B H; cbn [frun]; [exact Logic.I|].
+  inversion H as [|x y (Hn & Hd & K) Hr]; subst. cbn [fst snd] in *.
+  pose proof (fstep_keeps_node_ban f p id e ev now B Hn Hd K) as S.
+  destruct (fstep f p ev now) as [[f1 p1] o]. destruct S as (B1 & D1 & Dn).
+  specialize (IH f1 p1 B1). rewrite D1 in IH. specialize (IH Hr).
+  destruct (frun f1 p1 r) as [[f2 p2] os]. cbn [snd all_obs] in *. split; assumption.
+Qed.
+
+(* the state right after a limiter rejection satisfies the hypothesis of ban_lasts with
+   e = now + ban_duration (or for ever when no duration is configured) *)
+Lemma rejection_starts_ip_ban f p ip now r :
+  wfp p -> mem ip (permit_ips p) = false -> has_key ip (ban_ips p) = false -> enabled f = true ->
+  rate f = Some r -> verdict_ok (snd (rl_allows r now (KIp ip))) = false ->
+  let '(f', p', ok) := initial_pass f p ip now in
+  ok = false /\ ban_duration f' = ban_duration f /\
+  forall e, match ban_duration f with Some d => e <= now + d | None => True end -> ip_banned ip e p'.
+Proof.
+  intros W H1 H2 H3 H4 H5.
+  pose proof (initial_ip_limit_bans f p ip now r H1 H2 H3 H4 H5) as B.
+  pose proof (initial_pass_shape f p ip now) as S.
+  destruct (initial_pass f p ip now) as [[f' p'] ok].
+  destruct B as (B1 & B2 & B3 & B4 & B5). destruct S as (A1 & _ & _ & _ & A5 & A6).
+  split; [exact B1|]. split; [exact A1|]. intros e He. split; [|split].
+  - apply (wfp_shape p p' ip 0 None (ban_timeout f now) W); [left; exact A5|].
+    destruct A6 as [A6|[A6 _]]; [left|right]; exact A6.
+  - rewrite B4. exact H1.
+  - exists (option_map (fun d => now + d) (ban_duration f)). split; [exact B2|].
+    destruct (ban_duration f); cbn; auto.
+Qed.
+
+Lemma rejection_starts_node_ban f p ip id now r :
+  wfp p -> mem id (permit_nodes p) = false -> has_key id (ban_nodes p) = false -> enabled f = true ->
+  rate f = Some r -> verdict_ok (snd (rl_allows r now (KNode id))) = false ->
+  let '(f', p', ok) := final_pass f p ip id now in
+  ok = false /\ ban_duration f' = ban_duration f /\
+  forall e, match ban_duration f with Some d => e <= now + d | None => True end -> node_banned id e p'.
+Proof.
+  intros W H1 H2 H3 H4 H5.
+  pose proof (final_node_limit_bans f p ip id now r H1 H2 H3 H4 H5) as B.
+  pose proof (final_pass_shape f p ip id now) as S.
+  destruct (final_pass f p ip id now) as [[f' p'] ok].
+  destruct B as (B1 & B2). destruct S as (A1 & _ & _ & A4 & A5 & A6).
+  split; [exact B1|]. split; [exact A1|]. intros e He. split; [|split].
+  - apply (wfp_shape p p' ip id (ban_timeout f now) (ban_timeout f now) W A5 A6).
+  - rewrite A4. exact H1.
+  - exists (option_map (fun d => now + d) (ban_duration f)). split; [exact B2|].
+    destruct (ban_duration f); cbn; auto.
+Qed.
+
+(* D3. conforming traffic is never refused *)
+
+(* an unsolicited datagram: arrival time, source IP, what Packet::decode makes of it *)
+Definition datagram := (N * N * option (option N))%type.
+Definition inbound (ds : list datagram) : list (fevent * N) :=
+  map (fun d : datagram => let '(now, ip, dec) := d in (FInbound false ip dec, now)) ds.
+
+(* the calls the filter makes on its three limiters for these datagrams if none is dropped:
+   per IP and in total for every datagram whose IP is not permit-listed, per node id for every
+   decodable non-WHOAREYOU datagram whose node id is not permit-listed *)
+Definition ip_calls (p : pbl) (init : N) (ds : list datagram) : list levent :=
+  flat_map (fun d : datagram => let '(now, ip, _) := d in
+              if mem ip (permit_ips p) then [] else [LAllows (now - init) ip 1]) ds.
+Definition total_calls (p : pbl) (init : N) (ds : list datagram) : list levent :=
+  flat_map (fun d : datagram => let '(now, ip, _) := d in
+              if mem ip (permit_ips p) then [] else [LAllows (now - init) 0 1]) ds.
+Definition node_calls (p : pbl) (init : N) (ds : list datagram) : list levent :=
+  flat_map (fun d : datagram => let '(now, _, dec) := d in
+              match dec with
+              | Some (Some id) => if mem id (permit_nodes p) then [] else [LAllows (now - init) id 1]
+              | _ => []
+              end) ds.
+
+Definition all_ok (l : limiter) (evs : list levent) : Prop :=
+  Forall (fun o => o = None \/ o = Some VOk) (snd (lrun l evs)).
+Definition all_ok_opt (ol : option limiter) (evs : list levent) : Prop :=
+  match ol with Some l => all_ok l evs | None => True end.
+
+Lemma all_ok_cons l el k n rest :
+  all_ok l (LAllows el k n :: rest) ->
+  snd (allows l el k n) = VOk /\ all_ok (fst (allows l el k n)) rest.
+Proof.
+  unfold all_ok. cbn [lrun lstep]. destruct (allows l el k n) as [l1 v]. cbn [fst snd].
+  destruct (lrun l1 rest) as [l2 vs]. cbn [fst snd]. intro H. inversion H as [|x y Hx Hy]; subst. split; [|exact Hy].
+  destruct Hx as [Hx|Hx]; congruence.
+Qed.
+
+Definition passed (o : fobs) : Prop := o = OFate Deliver \/ o = OFate Unrecognized.
+
+Lemma with_rate_same f r : rate f = Some r -> with_rate f (Some r) = f.
+Proof. destruct f. cbn. intros ->. reflexivity. Qed.
+
+Lemma rl_allows_ip_ok r now ip rest :
+  all_ok_opt (ip_rl r) (LAllows (now - init_time r) ip 1 :: rest) ->
+  exists r1, rl_allows r now (KIp ip) = (r1, VOk) /\ init_time r1 = init_time r /\
+             total_rl r1 = total_rl r /\ node_rl r1 = node_rl r /\ all_ok_opt (ip_rl r1) rest.
+Proof.
+  unfold rl_allows. destruct (ip_rl r) as [l|] eqn:E; cbn [all_ok_opt].
+  - intro H. destruct (all_ok_cons _ _ _ _ _ H) as [V H'].
+    destruct (allows l (now - init_time r) ip 1) as [l' v]. cbn [fst snd] in *. subst v.
+    eexists. split; [reflexivity|]. cbn. auto.
+  - intros _. exists r. rewrite E. cbn. auto.
+Qed.
+
+Lemma rl_allows_node_ok r now id rest :
+  all_ok_opt (node_rl r) (LAllows (now - init_time r) id 1 :: rest) ->
+  exists r1, rl_allows r now (KNode id) = (r1, VOk) /\ init_time r1 = init_time r /\
+             total_rl r1 = total_rl r /\ ip_rl r1 = ip_rl r /\ all_ok_opt (node_rl r1) rest.
+Proof.
+  unfold rl_allows. destruct (node_rl r) as [l|] eqn:E; cbn [all_ok_opt].
+  - intro H. destruct (all_ok_cons _ _ _ _ _ H) as [V H'].
+    destruct (allows l (now - init_time r) id 1) as [l' v]. cbn [fst snd] in *. subst v.
+    eexists. split; [reflexivity|]. cbn. auto.
+  - intros _. exists r. rewrite E. cbn. auto.
+Qed.
+
+Lemma rl_allows_total_ok r now rest :
+  all_ok (total_rl r) (LAllows (now - init_time r) 0 1 :: rest) ->
+  exists r1, rl_allows r now KTotal = (r1, VOk) /\ init_time r1 = init_time r /\
+             ip_rl r1 = ip_rl r /\ node_rl r1 = node_rl r /\ all_ok (total_rl r1) rest.
+Proof.
+  unfold rl_allows. intro H. destruct (all_ok_cons _ _ _ _ _ H) as [V H'].
+  destruct (allows (total_rl r) (now - init_time r) 0 1) as [l' v]. cbn [fst snd] in *. subst v.
+  eexists. split; [reflexivity|]. cbn. auto.
+Qed.
+
+(* one datagram *)
+Lemma inbound_conform f p r now ip dec ipr totr noder :
+  enabled f = true -> rate f = Some r -> max_nodes_per_ip f = None ->
+  has_key ip (ban_ips p) = false ->
+  (forall id, dec = Some (Some id) -> has_key id (ban_nodes p) = false) ->
+  all_ok_opt (ip_rl r) (ip_calls p (init_time r) [(now, ip, dec)] ++ ipr) ->
+  all_ok (total_rl r) (total_calls p (init_time r) [(now, ip, dec)] ++ totr) ->
+  all_ok_opt (node_rl r) (node_calls p (init_time r) [(now, ip, dec)] ++ noder) ->
+  exists r2 x,
+    handle_inbound f p false ip dec now = (with_rate f (Some r2), p, x) /\ passed (OFate x) /\
+    init_time r2 = init_time r /\
+    all_ok_opt (ip_rl r2) ipr /\ all_ok (total_rl r2) totr /\ all_ok_opt (node_rl r2) noder.
+Proof.
+  intros En Rt Mn NBip NBnode Hip Htot Hnode.
+  cbn [ip_calls total_calls node_calls flat_map] in Hip, Htot, Hnode. rewrite app_nil_r in Hip, Htot, Hnode.
+  (* the IP stage *)
+  assert (S1 : exists r1,
+    initial_pass f p ip now = (with_rate f (Some r1), p, true) /\ init_time r1 = init_time r /\
+    node_rl r1 = node_rl r /\ all_ok_opt (ip_rl r1) ipr /\ all_ok (total_rl r1) totr).
+  { unfold initial_pass. destruct (mem ip (permit_ips p)).
+    - exists r. rewrite (with_rate_same f r Rt). cbn [app] in *. auto.
+    - rewrite NBip, En, Rt. cbn [negb app] in *.
+      destruct (rl_allows_ip_ok r now ip ipr Hip) as (r1 & -> & I1 & T1 & N1 & Hip1). cbn [verdict_ok negb].
+      rewrite <- T1, <- I1 in Htot.
+      destruct (rl_allows_total_ok r1 now totr Htot) as (r2 & -> & I2 & P2 & N2 & Htot2). cbn [verdict_ok].
+      exists r2. rewrite P2. repeat split; auto; congruence. }
+  destruct S1 as (r1 & E1 & I1 & N1 & Hip1 & Htot1).
+  unfold handle_inbound. rewrite E1. cbn [negb].
+  destruct dec as [[id|]|].
+  - (* the node stage *)
+    unfold final_pass. destruct (mem id (permit_nodes p)).
+    + exists r1, Deliver. cbn [app] in *. rewrite N1. repeat split; auto. left; reflexivity.
+    + rewrite (NBnode id eq_refl). cbn [enabled with_rate negb rate app] in *. rewrite En. cbn [negb].
+      rewrite <- N1, <- I1 in Hnode.
+      destruct (rl_allows_node_ok r1 now id noder Hnode) as (r2 & -> & I2 & T2 & P2 & Hnode2). cbn [verdict_ok].
+      cbn [max_nodes_per_ip with_rate]. rewrite Mn.
+      exists r2, Deliver. rewrite T2, P2. repeat split; auto; try congruence. left; reflexivity.
+  - exists r1, Deliver. cbn [app] in *. rewrite N1. repeat split; auto. left; reflexivity.
+  - exists r1, Unrecognized. cbn [app] in *. rewrite N1. repeat split; auto. right; reflexivity.
+Qed.
+
+Lemma calls_cons_ip p init d ds : ip_calls p init (d :: ds) = ip_calls p init [d] ++ ip_calls p init ds.
+Proof. unfold ip_calls. cbn [flat_map]. rewrite app_nil_r. reflexivity. Qed.
+Lemma calls_cons_total p init d ds : total_calls p init (d :: ds) = total_calls p init [d] ++ total_calls p init ds.
+Proof. unfold total_calls. cbn [flat_map]. rewrite app_nil_r. reflexivity. Qed.
+Lemma calls_cons_node p init d ds : node_calls p init (d :: ds) = node_calls p init [d] ++ node_calls p init ds.
+Proof. unfold node_calls. cbn [flat_map]. rewrite app_nil_r. reflexivity. Qed.
+
+(* conforming_never_refused, filter level: if every call the filter makes on its limiters for a
+   list of unsolicited datagrams is accepted, no sender is on a ban list and the nodes-per-IP rule is
+   off, then no datagram is dropped and the ban lists stay as they are *)
+Theorem conforming_passes ds : forall f p r,
+  enabled f = true -> rate f = Some r -> max_nodes_per_ip f = None ->
+  (forall now ip dec, In (now, ip, dec) ds ->
+     has_key ip (ban_ips p) = false /\ forall id, dec = Some (Some id) -> has_key id (ban_nodes p) = false) ->
+  all_ok_opt (ip_rl r) (ip_calls p (init_time r) ds) ->
+  all_ok (total_rl r) (total_calls p (init_time r) ds) ->
+  all_ok_opt (node_rl r) (node_calls p (init_time r) ds) ->
+  let '(f', p', os) := frun f p (inbound ds) in p' = p /\ Forall passed os.
+Proof.
+  induction ds as [|[[now ip] dec] rest IH]; intros f p r En Rt Mn NB Hip Htot Hnode.
+  - cbn. split; [reflexivity|constructor].
+  - cbn [inbound map frun fstep].
+    destruct (NB now ip dec (or_introl eq_refl)) as [NBip NBnode].
+    rewrite calls_cons_ip in Hip. rewrite calls_cons_total in Htot. rewrite calls_cons_node in Hnode.
+    destruct (inbound_conform f p r now ip dec _ _ _ En Rt Mn NBip NBnode Hip Htot Hnode)
+      as (r2 & x & -> & Px & I2 & Hip2 & Htot2 & Hnode2).
+    assert (NB' : forall now0 ip0 dec0, In (now0, ip0, dec0) rest ->
+              has_key ip0 (ban_ips p) = false /\
+              forall id, dec0 = Some (Some id) -> has_key id (ban_nodes p) = false).
+    { intros now0 ip0 dec0 Hin. apply (NB now0 ip0 dec0). right. exact Hin. }
+    specialize (IH (with_rate f (Some r2)) p r2 En eq_refl Mn NB'). rewrite I2 in IH.
+    specialize (IH Hip2 Htot2 Hnode2). fold (inbound rest).
+    destruct (frun (with_rate f (Some r2)) p (inbound rest)) as [[f3 p3] os]. destruct IH as [-> Hos].
+    split; [reflexivity|]. constructor; assumption.
+Qed.
+
+(* ... and "every call is accepted" follows from the reference token buckets *)
+Fixpoint mono_dg (cur : N) (ds : list datagram) : Prop :=
+  match ds with
+  | [] => True
+  | (now, _, _) :: r => cur <= now /\ mono_dg now r
+  end.
+
+Lemma mono_from_weaken evs a b : a <= b -> mono_from b evs -> mono_from a evs.
+Proof. destruct evs as [|e r]; cbn; [auto|]. intros L [H1 H2]. split; [lia|exact H2]. Qed.
+
+Lemma calls_mono (g : datagram -> list levent) init :
+  (forall d, g d = [] \/ exists k n, g d = [LAllows (fst (fst d) - init) k n]) ->
+  forall ds cur, mono_dg cur ds -> mono_from (cur - init) (flat_map g ds).
+Proof.
+  intros Hg. induction ds as [|[[now ip] dec] r IH]; intros cur M; cbn [flat_map]; [exact Logic.I|].
+  destruct M as [L M]. specialize (IH now M).
+  destruct (Hg (now, ip, dec)) as [->|(k & n & ->)]; cbn [app fst].
+  - apply mono_from_weaken with (b := now - init); [lia|exact IH].
+  - cbn [mono_from levent_time]. split; [lia|exact IH].
+Qed.
+
+Lemma calls_before (g : datagram -> list levent) init B :
+  (forall d, g d = [] \/ exists k n, g d = [LAllows (fst (fst d) - init) k n]) ->
+  forall ds, Forall (fun d : datagram => fst (fst d) <= B) ds -> all_before (B - init) (flat_map g ds).
+Proof.
+  intros Hg. induction ds as [|d r IH]; intro H; cbn [flat_map]; [constructor|].
+  inversion H as [|x y Hd Hr]; subst. unfold all_before. apply Forall_app. split; [|apply IH; exact Hr].
+  destruct (Hg d) as [->|(k & n & ->)]; [constructor|]. constructor; [cbn; lia|constructor].
+Qed.
+
+(* a limiter of the filter conforms: the reference bucket, related to it at the start, accepts all
+   the calls *)
+Definition lim_conforms (ol : option limiter) (m : tbmap) (cur B : N) (calls : list levent) : Prop :=
+  match ol with
+  | Some l => wfl l /\ Rel l m cur /\ B + tau l + tau l < U64 /\ tb_accepts_all (tau l) (tt l) m calls
+  | None => True
+  end.
+
+Lemma lim_conforms_all_ok ol m cur B calls :
+  lim_conforms ol m cur B calls -> mono_from cur calls -> all_before B calls -> all_ok_opt ol calls.
+Proof.
+  destruct ol as [l|]; cbn; [|auto]. intros (W & HR & Hov & Hall) M Bf.
+  exact (conforming_never_refused_limiter l m cur B calls W HR M Bf Hov Hall).
+Qed.
+
+Theorem conforming_never_refused ds f p r cur B mi mt mn :
+  enabled f = true -> rate f = Some r -> max_nodes_per_ip f = None ->
+  (forall now ip dec, In (now, ip, dec) ds ->
+     has_key ip (ban_ips p) = false /\ forall id, dec = Some (Some id) -> has_key id (ban_nodes p) = false) ->
+  mono_dg cur ds -> Forall (fun d : datagram => fst (fst d) <= B) ds ->
+  lim_conforms (ip_rl r) mi (cur - init_time r) (B - init_time r) (ip_calls p (init_time r) ds) ->
+  lim_conforms (Some (total_rl r)) mt (cur - init_time r) (B - init_time r) (total_calls p (init_time r) ds) ->
+  lim_conforms (node_rl r) mn (cur - init_time r) (B - init_time r) (node_calls p (init_time r) ds) ->
+  let '(f', p', os) := frun f p (inbound ds) in p' = p /\ Forall passed os.
+Proof.
+  intros En Rt Mn NB M Bf Cip Ctot Cnode.
+  apply (conforming_passes ds f p r En Rt Mn NB).
+  - apply (lim_conforms_all_ok _ _ _ _ _ Cip).
+    + apply calls_mono; [|exact M]. intros [[now ip] dec]. cbn. destruct (mem ip (permit_ips p)); eauto.
+    + apply calls_before; [|exact Bf]. intros [[now ip] dec]. cbn. destruct (mem ip (permit_ips p)); eauto.
+  - apply (lim_conforms_all_ok (Some (total_rl r)) _ _ _ _ Ctot).
+    + apply calls_mono; [|exact M]. intros [[now ip] dec]. cbn. destruct (mem ip (permit_ips p)); eauto.
+    + apply calls_before; [|exact Bf]. intros [[now ip] dec]. cbn. destruct (mem ip (permit_ips p)); eauto.
+  - apply (lim_conforms_all_ok _ _ _ _ _ Cnode).
+    + apply calls_mono; [|exact M]. intros [[now ip] dec]. cbn.
+      destruct dec as [[id|]|]; [destruct (mem id (permit_nodes p))|..]; eauto.
+    + apply calls_before; [|exact Bf]. intros [[now ip] dec]. cbn.
+      destruct dec as [[id|]|]; [destruct (mem id (permit_nodes p))|..]; eauto.
+Qed.
+
+(* a filter that is switched off, or has no rate limiter, only applies the ban / permit lists *)
+Lemma initial_no_limits f p ip now :
+  mem ip (permit_ips p) = false -> has_key ip (ban_ips p) = false -> (enabled f = false \/ rate f = None) ->
+  initial_pass f p ip now = (f, p, true).
+Proof.
+  intros H1 H2 H. unfold initial_pass. rewrite H1, H2. destruct (enabled f); cbn [negb]; [|reflexivity].
+  destruct H as [H|H]; [discriminate|]. rewrite H. reflexivity.
+Qed.
